@@ -201,6 +201,16 @@ def oracle(ctx, nprog=None):
             base[og] = r
         if len(base) < 2:
             continue
+        # forced fusion: the FINAL (fused) plan decides admission - budgets around the fused maximum
+        from cubed.core.optimization import fuse_all_optimize_dag
+        forced = lambda arrays: fuse_all_optimize_dag
+        rf = one_case(ctx, prog, expect, 500_000_000, 0, True, forced, "fuse_all", Rec)
+        if rf is not None:
+            for a in sorted({rf["M"] - 1, rf["M"], base[False]["M"], base[False]["M"] + 1}):
+                if a > 0:
+                    one_case(ctx, prog, expect, a, 0, True, forced, "fuse_all", Rec)
+        if getattr(ctx, "_c04_deadline", None) and ctx.elapsed() > ctx._c04_deadline:
+            break
         for label, optfn in optimizers(ctx.rng):
             for reserved in (0, 1000):
                 tried = set()
@@ -312,5 +322,6 @@ def search(ctx):
             fits_case(ctx, c["program"], a, 0, optfn, "lifted:" + str(c["config"]))
     if any(not (f["key"] and ctx.known(f["key"])) for f in ctx.failures):
         return
+    ctx._c04_deadline = ctx.elapsed() + ctx.budget(240, 900)   # time box for the search
     ctx.rng.seed(ctx.seed + 15485863)
     oracle(ctx, nprog=ctx.budget(25, 60))
